@@ -15,7 +15,7 @@ def run(tier, seed, verdict):
     quick = tier != "thorough"
     runs = [mr.ModelRun("MC_C05_q1.cfg" if quick else "MC_C05.cfg", seed, probes=("reopen",),
                         name_pools=[0, 1, 2], stride=1 if quick else 8),
-            mr.ModelRun("MC_C02_relink4.cfg", seed + 2, probes=("reopen",), name_pools=[0, 1], stride=1),
+            mr.ModelRun("MC_C02_relink4.cfg", seed + 2, probes=("reopen",), name_pools=[0, 1], stride=2 if quick else 1),
             mr.ModelRun("MC_SimSmall.cfg", seed + 3, probes=("reopen",), name_pools=[0, 1, 2],
                         simulate="num=%d" % (40 if quick else 400), depth=32),
             mr.ModelRun("MC_SimLinks.cfg", seed + 4, probes=("reopen",), name_pools=[0, 2],
@@ -36,7 +36,7 @@ def run(tier, seed, verdict):
                      "and what a link reports after its target was deleted are left open"])
     # second sentence of the property: dimensions linked to arrays (NixDimLink.tla)
     drun = runner.ExportRun("MC_NixDimLink", "MC_C05_dims_quick.cfg" if quick else "MC_C05_dims.cfg", seed, "harness.dimlink",
-                            opts={"ranks": RANKS}, stride=4 if quick else 6,
+                            opts={"ranks": RANKS}, stride=8 if quick else 6,
                             label=lambda tx: dimlink.klass(tx["act"]) + ":" + tx["act"]["out"]).run()
     if drun.res.violation is not None:
         verdict.violation("tlc/NixDimLink/" + drun.res.violation[:80], {"tlc": drun.res.violation, "trace": drun.res.error_trace[:40]})
